@@ -8,8 +8,6 @@ import (
 	"testing"
 	"time"
 
-	"example.com/scion-time/base/metrics"
-
 	"verif.local/sim/simcore"
 	"verif.local/sim/simnet"
 )
@@ -50,10 +48,29 @@ func c10MustReject(p []byte, i int) (must bool, authPos int) {
 
 func c10World(t *testing.T, r *simcore.Run) any {
 	tp := r.Tape
-	w := newNTSWorld(r, 2)
+	// The bit enumeration is run twice: runs 0..nEnum-1 over IP, runs nEnum..2*nEnum-1 over SCION
+	// (real SCIONClient, real runSCIONServer listeners, relay router; tampered copies are
+	// re-wrapped with consistent SCION/UDP lengths and checksum so that they reach the NTS
+	// layer); of the sampled runs after that every 4th is over SCION.
 	idx := int(r.Index)
 	total := c10Total()
 	nEnum := (total + c10PerRun - 1) / c10PerRun
+	overSCION := false
+	switch {
+	case idx >= nEnum && idx < 2*nEnum:
+		overSCION = true
+		idx -= nEnum
+	case idx >= 2*nEnum:
+		overSCION = idx%4 == 1
+	}
+	var tr ntsTransport
+	if overSCION {
+		tr = ntsSCIONTransport{newNTSSCIONWorld(r, 2)}
+		r.Probe("transport:scion")
+	} else {
+		tr = ntsIPTransport{newNTSWorld(r, 2)}
+	}
+	net := tr.network()
 	type mcase struct {
 		onResp bool
 		bit    int    // bit index, or -1 for a field mutation
@@ -100,44 +117,49 @@ func c10World(t *testing.T, r *simcore.Run) any {
 		}
 	}
 
-	var capturedReq *simnet.Datagram // genuine request of the current attempt
-	var genuineResp *simnet.Datagram // genuine response of the current attempt
-	var prevResp []byte              // a genuine response to an earlier request (for replays)
+	var capturedReq *simnet.Datagram    // genuine request of the current attempt
+	var capturedReqHop *simnet.Datagram // ... as it is delivered to the listeners (over SCION: the router's copy)
+	var genuineResp *simnet.Datagram    // genuine response of the current attempt
+	var prevResp []byte                 // a genuine response to an earlier request (for replays)
 	var tamper func(genuine []byte) ([]byte, string, bool)
 	var injected *simnet.Datagram
 	var trailing []byte
 	trailingOK := false
 	var lastClosedRecv *simnet.Datagram
 	replies := map[uint64]int{}
-	w.net.OnSend = func(d *simnet.Datagram) {
-		if d.SrcConn == nil || len(d.Payload) <= 48 {
-			return
-		}
-		if d.SrcConn.Host() == w.cli {
+	net.OnSend = func(d *simnet.Datagram) {
+		if tr.isRequest(d) {
 			capturedReq = d
 		}
-		if d.SrcConn.Host() == w.srv {
+		if tr.lastHopToServer(d) {
+			capturedReqHop = d
+		}
+		if tr.isReply(d) {
 			replies[d.Cause]++
 		}
 	}
-	w.net.OnClose = func(c *simnet.UDPConn) {
-		if c.Host() == w.cli {
+	net.OnClose = func(c *simnet.UDPConn) {
+		if c.Host().Node == tr.clientNode() {
 			lastClosedRecv = c.LastRecv
 		}
 	}
-	w.net.Intercept = func(d *simnet.Datagram) ([]simnet.Route, bool) {
-		if tamper == nil || d.SrcConn == nil || d.SrcConn.Host() != w.srv || len(d.Payload) <= 48 {
+	net.Intercept = func(d *simnet.Datagram) ([]simnet.Route, bool) {
+		if tamper == nil || !tr.lastHopToClient(d) {
 			return nil, false
 		}
-		if capturedReq == nil || d.Cause != capturedReq.ID {
+		if capturedReq == nil || tr.requestOf(d) != capturedReq.ID {
 			return nil, false
 		}
 		genuineResp = d
-		mut, _, ok := tamper(d.Payload)
+		mut, _, ok := tamper(tr.ntp(d))
 		if !ok {
 			return nil, false
 		}
-		injected = w.net.NewDatagram(d.Src, d.Dst, mut, "tampered response")
+		wrapped := tr.rewrap(d, mut)
+		if wrapped == nil {
+			return nil, false
+		}
+		injected = net.NewDatagram(d.Src, d.Dst, wrapped, "tampered response")
 		return []simnet.Route{{D: injected, Delay: 60 * time.Microsecond}, {D: d, Delay: 200 * time.Microsecond}}, true
 	}
 
@@ -163,29 +185,33 @@ func c10World(t *testing.T, r *simcore.Run) any {
 	}
 	checked, rejected, either := 0, 0, 0
 	var samples []string
-	w.goSafe("driver", func() {
+	tr.spawn("driver", func() {
 		defer r.Finish()
 		// a first clean exchange: completeness (the project's own packets are accepted)
-		if _, _, err := w.measureIP(w.cl, 300*time.Millisecond); err != nil {
+		if err := tr.measure(300 * time.Millisecond); err != nil {
 			r.Fail("C10", "genuine/rejected", "the first untampered NTS exchange failed: %v", err)
 			return
 		}
 		r.Probe("genuine-accepted")
-		if genuine := capturedReq; genuine != nil && len(genuine.Payload) != c10ReqLen {
-			r.Fail("harness", "c10/request-length", "request at pool level 8 is %d bytes, enumeration assumes %d", len(genuine.Payload), c10ReqLen)
+		if genuine := capturedReq; genuine != nil && len(tr.ntp(genuine)) != c10ReqLen {
+			r.Fail("harness", "c10/request-length", "request at pool level 8 is %d bytes, enumeration assumes %d", len(tr.ntp(genuine)), c10ReqLen)
 			return
 		}
 		for ci, c := range cases {
 			if r.Violation() != nil {
 				return
 			}
-			if r.Sleep(fmt.Sprintf("gap:%d", ci), w.cli.Node, 10*time.Millisecond).Killed {
+			if r.Sleep(fmt.Sprintf("gap:%d", ci), tr.clientNode(), 10*time.Millisecond).Killed {
 				return
 			}
 			if !c.onResp {
 				// ---- tampered request: take the request of the most recent attempt
-				g := capturedReq
-				if g == nil {
+				gd := capturedReqHop
+				if gd == nil || capturedReq == nil {
+					continue
+				}
+				g := struct{ Payload []byte }{tr.ntp(gd)}
+				if g.Payload == nil {
 					continue
 				}
 				var mut []byte
@@ -227,9 +253,13 @@ func c10World(t *testing.T, r *simcore.Run) any {
 				default:
 					continue
 				}
-				d := w.net.NewDatagram(g.Src, g.Dst, mut, "tampered request")
-				w.net.Inject(d, 50*time.Microsecond)
-				if r.Sleep(fmt.Sprintf("settle:%d", ci), w.cli.Node, 3*time.Millisecond).Killed {
+				wrapped := tr.rewrap(gd, mut)
+				if wrapped == nil {
+					continue
+				}
+				d := net.NewDatagram(gd.Src, gd.Dst, wrapped, "tampered request")
+				net.Inject(d, 50*time.Microsecond)
+				if r.Sleep(fmt.Sprintf("settle:%d", ci), tr.clientNode(), 3*time.Millisecond).Killed {
 					return
 				}
 				n := replies[d.ID]
@@ -296,7 +326,7 @@ func c10World(t *testing.T, r *simcore.Run) any {
 					return mut, desc, true
 				case "reflect":
 					desc = "the client's own request reflected as a response"
-					return append([]byte(nil), capturedReq.Payload...), desc, true
+					return append([]byte(nil), tr.ntp(capturedReq)...), desc, true
 				case "replay":
 					if prevResp == nil {
 						skip = true
@@ -310,7 +340,7 @@ func c10World(t *testing.T, r *simcore.Run) any {
 						return nil, "", false
 					}
 					desc = "an earlier genuine response replayed with the outstanding request's unique identifier appended after the authenticator"
-					uid := uidOf(capturedReq.Payload)
+					uid := uidOf(tr.ntp(capturedReq))
 					mut := append([]byte(nil), prevResp...)
 					mut = append(mut, 0x01, 0x04, byte((4+len(uid))>>8), byte(4+len(uid)))
 					mut = append(mut, uid...)
@@ -319,7 +349,7 @@ func c10World(t *testing.T, r *simcore.Run) any {
 					// a response of the same session to a different request: correctly sealed under
 					// the server-to-client key, but with another unique identifier
 					uid := append([]byte(nil), uidOf(g)...)
-					pt, ok := ntsOpenRaw(g, w.cl.Auth.NTSKEFetcher.VerifData().S2cKey)
+					pt, ok := ntsOpenRaw(g, tr.fetcher().VerifData().S2cKey)
 					if !ok || len(uid) < 32 {
 						skip = true
 						return nil, "", false
@@ -348,14 +378,14 @@ func c10World(t *testing.T, r *simcore.Run) any {
 					for i := range nonce {
 						nonce[i] = byte(0x30 + i)
 					}
-					ct := sealSIV(w.cl.Auth.NTSKEFetcher.VerifData().S2cKey, nonce, pt, mut)
+					ct := sealSIV(tr.fetcher().VerifData().S2cKey, nonce, pt, mut)
 					ctPad := (len(ct) + 3) &^ 3
 					flen := 4 + 4 + 16 + ctPad
 					mut = append(mut, 0x04, 0x04, byte(flen>>8), byte(flen), 0, 16, byte(len(ct)>>8), byte(len(ct)))
 					mut = append(mut, nonce...)
 					mut = append(mut, ct...)
 					mut = append(mut, make([]byte, ctPad-len(ct))...)
-					if _, ok := ntsVerify(mut, w.cl.Auth.NTSKEFetcher.VerifData().S2cKey); !ok {
+					if _, ok := ntsVerify(mut, tr.fetcher().VerifData().S2cKey); !ok {
 						r.Fail("harness", "c10/reseal", "the re-sealed response does not verify under the session key")
 						return nil, "", false
 					}
@@ -378,19 +408,20 @@ func c10World(t *testing.T, r *simcore.Run) any {
 			}
 			injected, genuineResp, lastClosedRecv = nil, nil, nil
 			trailing, trailingOK = nil, false
-			auth0 := promCounter(metrics.IPClientPktsAuthenticatedN)
-			_, _, err := w.measureIP(w.cl, 300*time.Millisecond)
+			auth0, _ := tr.authenticatedCount()
+			err := tr.measure(300 * time.Millisecond)
 			tamper = nil
-			authN := promCounter(metrics.IPClientPktsAuthenticatedN) - auth0
+			auth1, _ := tr.authenticatedCount()
+			authN := auth1 - auth0
 			if genuineResp != nil {
-				prevResp = append([]byte(nil), genuineResp.Payload...)
+				prevResp = append([]byte(nil), tr.ntp(genuineResp)...)
 			}
 			if skip || injected == nil {
 				continue
 			}
 			accepted := err == nil && lastClosedRecv != nil && lastClosedRecv.ID == injected.ID
 			// whatever the NTP layer does afterwards: nothing unauthenticated may end up in the pool
-			pool := w.cl.Auth.NTSKEFetcher.VerifData().Cookie
+			pool := tr.fetcher().VerifData().Cookie
 			if len(pool) > 8 {
 				r.Fail("C10", "response/pool-over-eight", "%s: the client's pool holds %d cookies", desc, len(pool))
 				return
@@ -400,7 +431,7 @@ func c10World(t *testing.T, r *simcore.Run) any {
 					r.Fail("C10", "response/unauthenticated-cookie-stored", "%s: the cookie that followed the authenticator was stored", desc)
 					return
 				}
-				if _, _, oerr := w.openCookie(ck); oerr != nil {
+				if _, _, oerr := openCookieWith(tr.provider(), ck); oerr != nil {
 					r.Fail("C10", "response/foreign-cookie-stored", "%s: the pool holds a cookie the server cannot open: %v", desc, oerr)
 					return
 				}
